@@ -13,7 +13,7 @@
 //!               <id> \t OTHER \t <tokens>
 //!               <id> \t PANIC \t <message>
 //!               <id> \t LEXERR \t <message>                 input did not tokenise
-//!               <id> \t END   \t <syn::parse_file ok: 0/1> \t <second run identical: 0/1>
+//!               <id> \t END   \t <syn::parse_file ok: 0/1> \t <second run identical: 0/1> \t <input item parses: 0/1>
 use proc_macro2::{Delimiter, TokenStream, TokenTree};
 use std::io::{BufRead, Write};
 use std::panic::{catch_unwind, AssertUnwindSafe};
@@ -222,7 +222,7 @@ fn main() {
             Err(e) => writeln!(w, "{id}\tLEXERR\t{}", esc(&e)).unwrap(),
             Ok(Err(p)) => {
                 writeln!(w, "{id}\tPANIC\t{}", esc(&p)).unwrap();
-                writeln!(w, "{id}\tEND\t0\t0").unwrap();
+                writeln!(w, "{id}\tEND\t0\t0\t{}", syn::parse_str::<syn::Item>(item).is_ok() as u8).unwrap();
             }
             Ok(Ok(ts)) => {
                 let s1 = ts.to_string();
@@ -232,7 +232,8 @@ fn main() {
                     _ => false,
                 };
                 describe(id, mode, ts, &mut w);
-                writeln!(w, "{id}\tEND\t{}\t{}", parse_ok as u8, again as u8).unwrap();
+                let input_ok = syn::parse_str::<syn::Item>(item).is_ok();
+                writeln!(w, "{id}\tEND\t{}\t{}\t{}", parse_ok as u8, again as u8, input_ok as u8).unwrap();
             }
         }
     }
